@@ -101,6 +101,7 @@ class Ctx:
         self.tmp = tmp or os.path.join(CACHE, 'ctx-%d-%d' % (os.getpid(), seed))
         os.makedirs(self.tmp, exist_ok=True)
         self.blobs = {}
+        self.infl = {}
         self.zdec = []
         self.sigs = []
         self.base = bytes(rnd.randrange(256) for _ in range(base_len))
@@ -121,6 +122,8 @@ class Ctx:
         self.blobs['empty'] = b''
         self.blobs['junkdl'] = b'not a zstd stream at all'
         self.zdec.append(('junkdl', 'empty'))
+        self.infl['junkdl'] = None
+        self.infl['empty'] = None
 
     def add_patch(self, name, rnd, extra=0):
         new = bytearray(self.base)
@@ -143,6 +146,7 @@ class Ctx:
         self.zdec.append(('dl' + name, 'raw' + name))
         self.sigs.append((KEY1, h, sg))
         self.p[name] = dict(new=new, dl='dl' + name, hash=h, sig=sg, tag=art_tag(new))
+        self.infl['dl' + name] = new
 
     def add_blob(self, name, data):
         self.blobs[name] = data
@@ -155,6 +159,17 @@ class Ctx:
         subprocess.run([UVH, 'zdec', src, dst], check=True, capture_output=True)
         self.blobs['zd_' + dlname] = open(dst, 'rb').read()
         self.zdec.append((dlname, 'zd_' + dlname))
+        self.infl[dlname] = self.real_inflate(dst)
+
+    def real_inflate(self, rawpath):
+        """what the real bipatch reader makes of an uncompressed stream applied to the base (None = error)"""
+        bp = os.path.join(self.tmp, 'base.bin')
+        open(bp, 'wb').write(self.base)
+        outp = os.path.join(self.tmp, 'infl.out')
+        r = subprocess.run([UVH, 'inflate', bp, rawpath, outp], capture_output=True, text=True)
+        if r.stdout.strip() == 'ok':
+            return open(outp, 'rb').read()
+        return None
 
     def header(self):
         out = []
